@@ -94,7 +94,7 @@ func sweep(t *testing.T, prop string) {
 		engine.RecordCase(prop, c, w, w.Delivered >= 4)
 		if rep := engine.Report(c, w, owned); rep != nil {
 			small := engine.Shrink(c, owned, 300)
-			if w2 := engine.Exec(small); engine.Report(small, w2, owned) != nil {
+			if w2, _ := engine.ExecQuiet(small); w2 != nil && engine.Report(small, w2, owned) != nil {
 				c, rep = small, engine.Report(small, w2, owned)
 			}
 			rt.Fatalf("property %s violated (replay %s)\ncase: %s\n%s", prop, engine.SaveReplay(prop, c), c, strings.Join(rep, "\n"))
